@@ -160,6 +160,29 @@ func RunCheck(verifDir, repoDir, prop, tier string, seed int, overlay map[string
 			}
 		}
 	}
+	// lemmas attributed to this property
+	for _, l := range eng.Specs.Lemmas {
+		rel := false
+		for _, p := range l.Props {
+			if p == prop {
+				rel = true
+			}
+		}
+		if !rel {
+			continue
+		}
+		vc := eng.TranslateLemma(l)
+		if vc.Err != nil {
+			anchorFail["anchor:lemma."+l.Name] = vc.Err.Error()
+			continue
+		}
+		cr.FuncVCs = append(cr.FuncVCs, vc)
+		funcsUnder = append(funcsUnder, "lemma "+l.Name)
+		for _, o := range vc.Obls {
+			jobs = append(jobs, job{vc, o})
+			generated[BaseName(o.Name)] = true
+		}
+	}
 	// discharge, grouped per function (shared prelude)
 	byVC := map[*FuncVC][]*Obligation{}
 	var order []*FuncVC
@@ -236,7 +259,7 @@ func RunCheck(verifDir, repoDir, prop, tier string, seed int, overlay map[string
 				locked = true
 			}
 		}
-		if !locked && r.Status != "sat" {
+		if !locked && r.Status != "sat" && r.Status != "refuted" && r.Obl.Goal != "false" {
 			// new code without a discharged reference: only a reproduced replay makes it a violation
 			reproduced := false
 			if rp := replayFor(r.Obl, repoDir, verifDir); rp != nil {
